@@ -18,7 +18,9 @@ MANIFEST = {
     "engine": "E1-Namespace",
     "technique": "Lean 4 refinement proof (Namespace model refines a nested-dict spec) + regenerated clash table + step-by-step differential correspondence",
     "text": "Theorems in lean/Jap/Props/C11.lean prove, for all keys, values and operation sequences, that the model of _namespace.py "
-            "refines a nested-dictionary specification whenever no key path runs through a plain dict value (the open known finding); the model is "
+            "refines a nested-dictionary specification whenever no key path runs through a plain dict value (the open known finding), that keys/values/as_flat "
+            "agree with items, that update is the fold of assignments, that dict -> namespace -> dict is the identity on plain nested dictionaries, that "
+            "strip_meta removes exactly the meta keys (idempotent) and that get_sorted_keys is a stable depth-descending permutation; the model is "
             "tied to the code by regenerating dir(Namespace) into Gen/NsTables and by comparing model and real Namespace after every step of "
             "generated and exhaustively enumerated operation sequences.",
     "level_note": "Trusted: Lean kernel; axioms propext/Quot.sound/Classical.choice only; the extractor; the correspondence harness; String.splitOn as the "
@@ -109,6 +111,20 @@ def real_step(cur, op):
             return None, cur
         if o == "items":
             return [[kk, enc(vv)] for kk, vv in cur.items(op.get("branches", False))], cur
+        if o == "keys":
+            return list(cur.keys(op.get("branches", False))), cur
+        if o == "values":
+            return [enc(vv) for vv in cur.values(op.get("branches", False))], cur
+        if o == "bool":
+            return bool(cur), cur
+        if o == "as_flat":
+            return [[kk, enc(vv)] for kk, vv in vars(cur.as_flat()).items()], cur
+        if o == "sorted_keys":
+            return cur.get_sorted_keys(op.get("branches", False)), cur
+        if o == "strip_meta":
+            from jsonargparse._namespace import strip_meta
+
+            return enc(strip_meta(cur)), cur
         if o == "as_dict":
             return enc(cur.as_dict()), cur
         if o == "clone_eq":
@@ -243,6 +259,42 @@ def ref_as_dict(node):
     return d
 
 
+META = ("__path__", "__orig__", "__default_config__")
+
+
+def ref_sorted_keys(root, branches):
+    """what get_sorted_keys promises: the non-meta leaf keys (+ every proper prefix of one with `branches`)"""
+    keys = [k for k, _ in ref_leaves(root) if k.rsplit(".", 1)[-1] not in META]
+    want = set(keys)
+    if branches:
+        for k in keys:
+            segs = k.split(".")
+            for n in range(1, len(segs)):
+                want.add(".".join(segs[:n]))
+    return want
+
+
+def ref_strip(v):
+    """the same tree without any meta key, at every depth of namespaces, dicts, lists and tuples"""
+    from jsonargparse import Namespace
+
+    if isinstance(v, Node):
+        n = Node()
+        for k, x in v.items():
+            if k not in META:
+                n[k] = ref_strip(x)
+        return n
+    if isinstance(v, Namespace):
+        return ref_strip(ref_of_value(v))
+    if isinstance(v, dict):
+        return {k: ref_strip(x) for k, x in v.items() if k not in META}
+    if isinstance(v, list):
+        return [ref_strip(x) for x in v]
+    if type(v) is tuple:
+        return tuple(ref_strip(x) for x in v)
+    return v
+
+
 def ref_expand(d):
     n = Node()
     for k, v in d.items():
@@ -334,6 +386,18 @@ def ref_step(root, op):
             return None, root, any_through
         if o == "items":
             return ("items", ref_leaves(root, op.get("branches", False))), root, False
+        if o == "keys":
+            return ("keys", [kk for kk, _ in ref_leaves(root, op.get("branches", False))]), root, False
+        if o == "values":
+            return ("values", [vv for _, vv in ref_leaves(root, op.get("branches", False))]), root, False
+        if o == "bool":
+            return (len(root) > 0), root, False
+        if o == "as_flat":
+            return ("items", ref_leaves(root, False)), root, False
+        if o == "sorted_keys":
+            return ("sorted_keys", ref_sorted_keys(root, op.get("branches", False))), root, False
+        if o == "strip_meta":
+            return ("strip", ref_strip(root)), root, False
         if o == "as_dict":
             return ("as_dict", ref_as_dict(root)), root, False
         if o == "clone_eq":
@@ -455,6 +519,21 @@ def oracle_run(ops):
             want = [(k, canon_obs(v)) for k, v in obs[1]]
             if sorted(got) != sorted(want):
                 desc = "items() differ"
+        elif isinstance(obs, tuple) and obs[0] == "keys":
+            if sorted(r_real) != sorted(obs[1]) or len(set(r_real)) != len(r_real):
+                desc = "keys() differ"
+        elif isinstance(obs, tuple) and obs[0] == "values":
+            if sorted(canon_obs(dec(v)) for v in r_real) != sorted(canon_obs(v) for v in obs[1]):
+                desc = "values() differ"
+        elif isinstance(obs, tuple) and obs[0] == "sorted_keys":
+            depths = [len(k.split(".")) for k in r_real]
+            if set(r_real) != obs[1] or len(set(r_real)) != len(r_real):
+                desc = "get_sorted_keys() does not return the non-meta keys"
+            elif any(a < b for a, b in zip(depths, depths[1:])):
+                desc = "get_sorted_keys() is not in order of descending depth"
+        elif isinstance(obs, tuple) and obs[0] == "strip":
+            if canon_obs(dec(r_real)) != canon_obs(obs[1]):
+                desc = "strip_meta() differs"
         elif isinstance(obs, tuple) and obs[0] == "as_dict":
             if canon_obs(dec(r_real)) != canon_obs(obs[1]):
                 desc = "as_dict() differs"
@@ -491,6 +570,8 @@ def gen_value(rng, depth=0, names=None):
         return [gen_value(rng, depth + 1) for _ in range(rng.randint(0, 2))]
     if r < 0.6:
         return {"t": [gen_value(rng, depth + 1) for _ in range(rng.randint(0, 2))]}
+    if rng.random() < 0.15:
+        names = list(names) + list(META)
     if r < 0.8:
         ks = rng.sample(names, rng.randint(0, 2))
         return {"d": [[k, gen_value(rng, depth + 1)] for k in ks]}
@@ -503,7 +584,7 @@ def gen_key(rng, names=None, bad=0.04):
     if rng.random() < bad:
         return rng.choice(["a b", "a..b", ".a", "a.", ""])
     d = rng.choice([1, 1, 2, 2, 3])
-    return ".".join(rng.choice(names) for _ in range(d))
+    return ".".join((rng.choice(META) if rng.random() < 0.05 else rng.choice(names)) for _ in range(d))
 
 
 def gen_dict_value(rng, dotted=True):
@@ -533,7 +614,16 @@ def plain_dict(rng, depth=0):
     return {"d": items}
 
 
+def gen_observation(rng):
+    o = rng.choice(["keys", "values", "bool", "as_flat", "sorted_keys", "strip_meta"])
+    if o in ("keys", "values", "sorted_keys"):
+        return {"op": o, "branches": rng.random() < 0.5}
+    return {"op": o}
+
+
 def gen_op(rng):
+    if rng.random() < 0.08:
+        return gen_observation(rng)
     r = rng.random()
     if r < 0.30:
         return {"op": "set", "k": gen_key(rng), "v": gen_value(rng)}
@@ -577,7 +667,9 @@ def gen_value_ns(rng):
 
 
 def observe_tail():
-    return [{"op": "poke_lists"}, {"op": "items", "branches": True}, {"op": "as_dict"}, {"op": "clone_eq"}]
+    return [{"op": "poke_lists"}, {"op": "items", "branches": True}, {"op": "as_dict"}, {"op": "clone_eq"},
+            {"op": "keys", "branches": True}, {"op": "values", "branches": False}, {"op": "bool"}, {"op": "as_flat"},
+            {"op": "sorted_keys", "branches": True}, {"op": "strip_meta"}]
 
 
 def exhaustive_sequences(max_len):
@@ -660,7 +752,7 @@ def judge_oracle(ctx: Ctx, seq, origin):
 
 def run(ctx: Ctx):
     repo_python_path()
-    ctx.rule = ("operation sequences over {set,setattr,get,getdef,del,pop,contains,update(+only_unset,+key),items,as_dict,clone,eq,"
+    ctx.rule = ("operation sequences over {set,setattr,get,getdef,del,pop,contains,update(+only_unset,+key),items,keys,values,bool,as_flat,get_sorted_keys,strip_meta,as_dict,clone,eq,"
                 "Namespace(dict),dict_to_namespace} with dotted keys of depth 1-3 from ordinary and clash names and scalar/list/tuple/dict/namespace "
                 "values; every step compared real vs Lean model (state incl. clash marks + result) and real vs nested-dict reference; "
                 "non-trivial = sequence whose final state has >=1 leaf; distinct by canonical JSON of the sequence")
@@ -702,7 +794,7 @@ def run(ctx: Ctx):
     for s in seqs:
         for op in s:
             ctx.hist("ops", op["op"])
-        ctx.hist("length", min(len(s) - 3, 40) // 5 * 5)
+        ctx.hist("length", min(len(s) - len(observe_tail()), 40) // 5 * 5)
 
     # --- correspondence ----------------------------------------------------
     bad = correspond(ctx, seqs, "generated")
